@@ -91,6 +91,33 @@ def arrange(a: int, b: int, c: int, p: int) -> bool:
     return ns.amplitude[0] == want["N"] and ew.amplitude[0] == want["E"] and vt.amplitude[0] == want["Z"] and ns.dt_in_seconds == 0.01
 
 
+PERMS = [("E", "N", "Z"), ("E", "Z", "N"), ("N", "E", "Z"), ("N", "Z", "E"), ("Z", "E", "N"), ("Z", "N", "E")]
+MIXED_PREFIX = ["BH", "EH", "HN"]
+
+
+def arrange_mixed(perm: int, p1: int, p2: int, p3: int) -> bool:
+    """
+    the orientation of a channel is the LAST character of its code: traces whose codes carry different band / instrument
+    prefixes (EHZ with HHN / HHE, HNN / HNE with BHZ - legitimate SEED naming) are arranged by that character alone
+    pre: 0 <= perm < 6 and 0 <= p1 < 3 and 0 <= p2 < 3 and 0 <= p3 < 3
+    post: _
+    """
+    suffix = PERMS[perm]
+    chans = [MIXED_PREFIX[p] + x for p, x in zip((p1, p2, p3), suffix)]
+    traces = [_Trace(ch, i + 1) for i, ch in enumerate(chans)]
+    ns, ew, vt = DW._arrange_traces(traces)
+    want = {x: float(i + 1) for i, x in enumerate(suffix)}
+    return ns.amplitude[0] == want["N"] and ew.amplitude[0] == want["E"] and vt.amplitude[0] == want["Z"]
+
+
+def arrange_mixed_reach(perm: int, p1: int, p2: int, p3: int) -> bool:
+    """
+    pre: 0 <= perm < 6 and 0 <= p1 < 3 and 0 <= p2 < 3 and 0 <= p3 < 3
+    post: False
+    """
+    return arrange_mixed(perm, p1, p2, p3)
+
+
 def arrange_reach(a: int, b: int, c: int, p: int) -> bool:
     """
     pre: 0 <= a < 6 and 0 <= b < 6 and 0 <= c < 6 and 0 <= p < 3
